@@ -200,6 +200,20 @@ def sites(ctx):
     src = [(bb, t) for bb, t in tf.calls() if (t.get('callee') or '').endswith('IntoIterator::into_iter')]
     src_ok = any('nodes' in origin(tf, t['args'][0]).fields and origin(tf, t['args'][0]).params() == {1} for bb, t in src)
     ctx.ob('SITES', 'init-loop', ok and src_ok, short_loc(tf.span), 'two pointer walks advancing by 1 (init, lookup tables): %s; the init loop iterates safe.nodes itself: %s' % (ok, src_ok))
+    # every index range walked in freeze (placeholder creation, lookup phase) ends at nodes.len() - never at a capacity,
+    # a constant or a computed bound: the raw-pointer walks stay inside the initialised slots
+    rng = []
+    for bb in sorted(tf.live_blocks()):
+        if tf.is_cleanup(bb):
+            continue
+        for s_ in tf.stmts(bb):
+            if 'assign' in s_ and s_['rv']['k'] == 'agg' and (s_['rv'].get('adt') or '').endswith('ops::range::Range') and len(s_['rv']['ops']) == 2:
+                so, eo = origin(tf, s_['rv']['ops'][0]), origin(tf, s_['rv']['ops'][1])
+                good = so.consts() == {0} and 'len' in eo.flags and 'nodes' in eo.fields and not eo.has_arith() and \
+                    bool(eo.calls) and call_matches(eo.calls[0], ['Vec::<T, A>::len']) and not any('capacity' in cname(c) for c in eo.calls)
+                rng.append(good)
+    ctx.ob('SITES', 'ranges-end-at-len', len(rng) >= 2 and all(rng), short_loc(tf.span),
+           'index ranges built in freeze: %d, each 0..nodes.len(): %s' % (len(rng), rng))
     # phase 2 / lookup builder never reads per_type_lookup
     reads = []
     for b in f.body_list:
